@@ -14,15 +14,15 @@ NOTE_COMMON = ("Trusted base: the instrumenter's rewrites are semantics preservi
 CHECKS = {
     "C04": dict(engine="wgsim", design="§7.3, §8 C04",
         technique="deterministic simulation: seeded map-iteration/ULID-clock schedules over the real weighted-graph builder, compared with an executable reference model (longest tuple-hop walk)",
-        text="Seeded exploration. Every generated model is built under the complete family of DFS-root rotations plus reverse/last-first/rotate-all policies and random tapes over all 17 weighted-graph map sites with ULID clock faults; every accepted build's node and edge weight maps (also after a call history of other models on the same builder value, and in 1-3 concurrent builds on shared or fresh builders) must equal an independent reference (longest tuple-hop walk in the (node,type) pair graph, operands grouped as the statement says), plus the reference-free clauses (no R# placeholder, no empty relation map, edge = target + hop). Exploration, not proof: the input space is sampled; only the root rotations are complete per model.",
+        text="Seeded exploration. Every generated model is built under the complete family of DFS-root rotations plus reverse/last-first/rotate-all policies and random tapes over all 17 weighted-graph map sites with ULID clock faults; every accepted build's node and edge weight maps (also after a call history of other models on the same builder value, and in 1-3 concurrent builds on shared or fresh builders) must equal an independent reference (longest tuple-hop walk in the (node,type) pair graph, operands grouped as the statement says), plus the reference-free clauses (no R# placeholder, no empty relation map, edge = target + hop). Exploration, not proof: the input space is sampled; only the root rotations are complete per model. Also: relation nodes of accepted models the reference rejects are held to the type-set clause; a second AssignWeights on the returned graph must leave it unchanged; nodes and edges a caller keeps without the graph must survive garbage collections and later builds; 70 000 identical builds in one process must agree.",
         note=NOTE_COMMON + " The reference weight model (worker/refgraph.go) encodes the statement."),
     "C05": dict(engine="wgsim", design="§7.2, §8 C05",
         technique="deterministic simulation: seeded traversal-order schedules over the real builder, verdict compared with an executable well-foundedness predicate under every schedule",
-        text="Seeded exploration. The verdict of Build (accepted / error wrapping one of the three sentinel errors) is compared with a reference well-foundedness predicate (clauses i-v of DESIGN §7.2) under every schedule of the family; one schedule that accepts a non-well-founded model or rejects a well-founded one is a violation with its tape. Half of the generated models are cycle-biased, half are kept well-founded; fixture-seeded, JSON-only, separator-collision and wildcard-lattice model families are mixed in; builder call histories and concurrent builds on a shared builder are part of the schedule space. One known finding (D12, empty direct assignment as operand) is matched structurally and printed as KNOWN-FINDING.",
+        text="Seeded exploration. The verdict of Build (accepted / error wrapping one of the three sentinel errors) is compared with a reference well-foundedness predicate (clauses i-v of DESIGN §7.2) under every schedule of the family; one schedule that accepts a non-well-founded model or rejects a well-founded one is a violation with its tape. Half of the generated models are cycle-biased, half are kept well-founded; fixture-seeded, JSON-only, separator-collision and wildcard-lattice model families are mixed in; builder call histories and concurrent builds on a shared builder are part of the schedule space. One known finding (D12, empty direct assignment as operand) is matched structurally and printed as KNOWN-FINDING. Name dialects (operator labels, keywords, case variants, separator compounds, JSON-only names), operator-lattice models, names carrying the library's internal markers and the wildcard suffix, and mass repetition (70 000 identical builds) are part of the workload space.",
         note=NOTE_COMMON + " The well-foundedness predicate (worker/refgraph.go) encodes the statement."),
     "C06": dict(engine="wgsim", design="§8 C06",
         technique="deterministic simulation: same model built under many seeded map/clock schedules, type/operand permutations and concurrent builder tasks under a seeded serialising scheduler; outcomes compared with the canonical run",
-        text="Seeded exploration with a self-consistency oracle: verdict and the position-normalised graph (weights and wildcard sets of every node and edge) must be identical across the schedule family, across permutations of the type definitions, across permutations of commutative operands (relation weights) for 1-3 builder tasks (sequential histories and concurrent builds, on one shared builder value or fresh ones) interleaved by the seeded scheduler at statement granularity; identical tapes are re-executed on a sample to detect uncontrolled nondeterminism.",
+        text="Seeded exploration with a self-consistency oracle: verdict and the position-normalised graph (weights and wildcard sets of every node and edge) must be identical across the schedule family, across permutations of the type definitions, across permutations of commutative operands (relation weights) for 1-3 builder tasks (sequential histories and concurrent builds, on one shared builder value or fresh ones) interleaved by the seeded scheduler at statement granularity; identical tapes are re-executed on a sample to detect uncontrolled nondeterminism. A second AssignWeights on the returned graph and 70 000 identical builds in one process must give the same result; read-modify-write statements on shared variables are split by a yield point.",
         note=NOTE_COMMON + " No reference model involved: decides independence from schedule, not correctness."),
     "C10": dict(engine="wgsim", design="§7.1, §8 C10",
         technique="deterministic simulation: ULID clock/entropy faults, map schedules and concurrent builders over the real builder; built graph compared with an executable reference structure (isomorphism modulo operator labels)",
@@ -35,23 +35,23 @@ CHECKS = {
 
     "C07": dict(engine="mergesim", design="§7.6, §8 C07",
         technique="deterministic simulation: seeded map-iteration schedules, delivery permutation/duplication, cold/warm parser history and concurrent merges over the real merger, compared with a reference merge computed from the generator's plan",
-        text="Seeded exploration. Generated module sets (half conflict-free, half with injected conflicts of every kind of the statement) are merged under schedules over the six merger map sites, after cold restarts and warm-up histories, in permuted delivery orders, with a file delivered twice and in four token/indentation layouts; success iff the plan is conflict-free, the returned model equals the plan's attributed union (types, relations, rewrites, restrictions, conditions, module/file attribution, GetModuleForObjectTypeRelation, schema version), on conflict a non-nil error with nil model naming a file that may be blamed for every conflict, never a panic.",
+        text="Seeded exploration. Generated module sets (half conflict-free, half with injected conflicts of every kind of the statement) are merged under schedules over the six merger map sites, after cold restarts and warm-up histories, in permuted delivery orders, with a file delivered twice and in four token/indentation layouts; success iff the plan is conflict-free, the returned model equals the plan's attributed union (types, relations, rewrites, restrictions, conditions, module/file attribution, GetModuleForObjectTypeRelation, schema version), on conflict a non-nil error with nil model naming a file that may be blamed for every conflict, never a panic. Module sets also carry name spellings (./x, dir//x, dir\\x), the same contents under two spellings, conditions named like types, joined-key collision names, files extending the type they define, BOM-prefixed files, 20-72 files and 999-1025 type definitions.",
         note=NOTE_COMMON + " Expected outcomes are derived from the plan (worker/mergesim.go); parse errors are not required to name their file."),
     "C12": dict(engine="mergesim", design="§8 C12",
         technique="deterministic simulation: same file list merged under many seeded map schedules, histories and interleavings; permuted file lists; outcomes compared with the canonical run",
-        text="Seeded exploration with a self-consistency oracle: for one file list the full outcome (model with proto.Equal, or the sequence of (message, file, line, column)) must be identical under every schedule of the family, after cold/warm parser histories and in 2-3 concurrent merges; for permuted file lists success/failure must not change and successful models must be equal after sorting type definitions by name (also for two different files delivered under one name).",
+        text="Seeded exploration with a self-consistency oracle: for one file list the full outcome (model with proto.Equal, or the sequence of (message, file, line, column)) must be identical under every schedule of the family, after cold/warm parser histories and in 2-3 concurrent merges; for permuted file lists success/failure must not change and successful models must be equal after sorting type definitions by name (also for two different files delivered under one name). Same workload space as C07 (name spellings, thousand-type sets with a duplicate positioned at the threshold, list reuse histories).",
         note=NOTE_COMMON + " Decides independence from schedule and file order, not functional correctness (that is C07)."),
     "C13": dict(engine="puresim", design="§4, §7.5, §8 C13",
         technique="deterministic simulation of 1-4 caller threads under a seeded serialising scheduler that is invisible to the race detector (plain + -race builds), with cold restarts of the parser caches, warm histories and shared inputs; results compared with the sequential cold reference, inputs with deep copies",
-        text="Seeded exploration. Real goroutines, one running at a time, hand-off through plain memory in //go:norace code so ThreadSanitizer learns no happens-before edge from the simulator: unsynchronised sharing between serialised tasks is reported deterministically and replays from the tape. Every public transformer/graph/validator call's complete result must equal the sequential cold-start reference (stateless sequential specification: linearizable iff equal) and, for every fifth workload, the result of the same calls in a fresh OS process (restart.process); every input must equal its deep copy; no deadlock; the concurrent phase may need at most 50x the yield points the calls pass sequentially. Shared objects: one model, one module-file list, one weighted builder, one finished plain graph and one finished weighted graph per model (reader storms). Fresh -race processes whose first calls are 2-3 concurrent calls of one kind find first-use races. Goroutines started by the library become simulated tasks.",
+        text="Seeded exploration. Real goroutines, one running at a time, hand-off through plain memory in //go:norace code so ThreadSanitizer learns no happens-before edge from the simulator: unsynchronised sharing between serialised tasks is reported deterministically and replays from the tape. Every public transformer/graph/validator call's complete result must equal the sequential cold-start reference (stateless sequential specification: linearizable iff equal) and, for every fifth workload, the result of the same calls in a fresh OS process (restart.process); every input must equal its deep copy; no deadlock; the concurrent phase may need at most 50x the yield points the calls pass sequentially. Shared objects: one model, one module-file list, one weighted builder, one finished plain graph and one finished weighted graph per model (reader storms). Fresh -race processes whose first calls are 2-3 concurrent calls of one kind find first-use races. Goroutines started by the library become simulated tasks. The very objects the calls returned are rendered again after all other calls, the reference calls and a forced garbage collection (result.changed_later); graphs derived from one another must not share state under pruning (absolute clause); option slices travel with spare capacity; model objects edited in place between calls; finalizers run as simulated tasks.",
         note=NOTE_COMMON + " ulid's own locked entropy source is stubbed; interleavings at statement granularity in the hand-written packages, function/loop granularity in the generated parser; happens-before race detection cannot see accesses ordered by accident through the library's own locks, atomics and fmt's pool (the harness itself uses none of them inside tasks); which sentinel error the weighted graph returns is not compared."),
     "C14": dict(engine="rendersim", design="§7.8, §8 C14",
         technique="deterministic simulation: seeded map-iteration schedules over the printer, JSON key-order and type-order delivery permutations, repeated calls; bytes compared with the canonical run and with an executable statement of the documented order",
-        text="Seeded exploration. Output bytes must be identical under every schedule over the printer's map sites, for JSON re-encodings with shuffled object keys, for permuted type definitions of modular models, across repeated calls and after calls that fail late (poison models); the sequence of type/relation/condition/parameter names must equal the documented order computed from the plan; with source information, stripping comments must give the plain output and both must parse to proto.Equal models.",
+        text="Seeded exploration. Output bytes must be identical under every schedule over the printer's map sites, for JSON re-encodings with shuffled object keys, for permuted type definitions of modular models, across repeated calls and after calls that fail late (poison models); the sequence of type/relation/condition/parameter names must equal the documented order computed from the plan; with source information, stripping comments must give the plain output and both must parse to proto.Equal models. Every DSL string returned in a workload is kept next to a private copy (render.changed_later); a same-length JSON twin of every model is rendered right after it; models with shared operand messages, relations without metadata entry and foreign (non-ASCII / invalid UTF-8) names are part of the workload space; option slices are reused across calls.",
         note=NOTE_COMMON + " The documented order (worker/rendersim.go) encodes the statement."),
     "C17": dict(engine="plainsim", design="§7.7, §8 C17",
         technique="deterministic simulation: seeded schedules over gonum's map iterators/ranges and the ULID clock under the real plain graph, Reversed, DOT, PathExists, GetCycles; compared with an executable reference plain graph and across schedules",
-        text="Seeded exploration. For every generated model and schedule: nodes and typed edges equal the reference plain graph (operators matched by position), Reversed flips every edge and the direction and nothing else, reverse-twice DOT equals DOT, DOT and reversed DOT are byte-identical across schedules and contain no ULID, PathExists equals reference reachability for all label pairs (bounded to 17 labels) and is dual on the reversed graph, label lookup finds exactly type/relation/wildcard nodes, computed-only cycles are reported and acyclic models report none (on the graph, its reverse and its double reverse), reversing does not change the original and is repeatable.",
+        text="Seeded exploration. For every generated model and schedule: nodes and typed edges equal the reference plain graph (operators matched by position), Reversed flips every edge and the direction and nothing else, reverse-twice DOT equals DOT, DOT and reversed DOT are byte-identical across schedules and contain no ULID, PathExists equals reference reachability for all label pairs (bounded to 17 labels) and is dual on the reversed graph, label lookup finds exactly type/relation/wildcard nodes, computed-only cycles are reported and acyclic models report none (on the graph, its reverse and its double reverse), reversing does not change the original and is repeatable. Accessors are also called on one graph object in tape-chosen order (plain.call_order); a second reversal right after the first, the end points of the original's lines, GetCycles before Reversed, equal cycle classification of graph and reversals, other spellings of existing labels as negative probes, and independence of derived graphs under pruning are checked.",
         note=NOTE_COMMON + " gonum iterator overlay replaces reflect.MapIter by an order-controlled iterator; plain edge conditions are not observable."),
 }
 
